@@ -15,13 +15,18 @@ Record cstate := {
   cs_en : bool;     (* SCIONClient.InterleavedMode (configuration) *)
   cs_ref : bool;    (* prev.reference <> "" *)
   cs_il : bool;     (* prev.interleaved *)
-  cs_fp : Z }.      (* prev.path *)
+  cs_fp : Z;        (* prev.path *)
+  cs_old : bool }.  (* prev.cTxTime is 3 s old or older: the next request is in basic form whatever prev says *)
 
 Definition in_ilv (c : cstate) : bool := cs_en c && cs_ref c && cs_il c.       (* InInterleavedMode() *)
 Definition ilv_path (c : cstate) : Z := if in_ilv c then cs_fp c else 0.        (* InterleavedModePath() *)
 Definition reset_client (c : cstate) : cstate :=                                (* ResetInterleavedMode() *)
-  {| cs_en := cs_en c; cs_ref := false; cs_il := cs_il c; cs_fp := cs_fp c |}.
-Definition fresh_client (en : bool) : cstate := {| cs_en := en; cs_ref := false; cs_il := false; cs_fp := 0 |}.
+  {| cs_en := cs_en c; cs_ref := false; cs_il := cs_il c; cs_fp := cs_fp c; cs_old := cs_old c |}.
+Definition fresh_client (en : bool) : cstate :=
+  {| cs_en := en; cs_ref := false; cs_il := false; cs_fp := 0; cs_old := false |}.
+(* 3 s or more pass without an exchange *)
+Definition age_client (c : cstate) : cstate :=
+  {| cs_en := cs_en c; cs_ref := cs_ref c; cs_il := cs_il c; cs_fp := cs_fp c; cs_old := true |}.
 
 (* ---- first loop: sticky assignment with swap-remove ---- *)
 Definition fp_of (fps : list Z) (p : nat) : Z := nth p fps (-1).
@@ -101,15 +106,19 @@ Definition assign (fps : list Z) (cs : list cstate) (c : bool) (d : Z) (tape : l
    The scripted peer answers every request in one of three ways. *)
 Inductive pmode := PN    (* conformant: interleaved reply to an interleaved request, basic otherwise *)
                  | PB    (* always a basic-mode reply *)
-                 | PF.   (* a reply the client rejects (metadata check); no state change *)
+                 | PF    (* a reply the client rejects (metadata check); no state change *)
+                 | PS.   (* no reply: the client waits until the context of the round ends; nothing is sent afterwards *)
 
 (* one exchange over a path with fingerprint pfp: new state, accepted?, was the request in interleaved form?
-   (assumes the previous exchange is less than 3 s old and the same server as before) *)
+   (same server as before; the request is in interleaved form if the previous exchange is less than 3 s old) *)
+Definition req_form (s : cstate) : bool := cs_en s && cs_ref s && negb (cs_old s).
 Definition exch1 (s : cstate) (m : pmode) (pfp : Z) : cstate * bool * bool :=
-  let ril := cs_en s && cs_ref s in
-  let upd (il : bool) := if cs_en s then {| cs_en := true; cs_ref := true; cs_il := il; cs_fp := pfp |} else s in
+  let ril := req_form s in
+  let upd (il : bool) :=
+    if cs_en s then {| cs_en := true; cs_ref := true; cs_il := il; cs_fp := pfp; cs_old := false |} else s in
   match m with
   | PF => (s, false, ril)
+  | PS => (s, false, ril)
   | PN => (upd ril, true, ril)
   | PB => (upd false, true, ril)
   end.
@@ -123,7 +132,8 @@ Fixpoint exch_loop (n : nat) (s : cstate) (ms : list pmode) (vs : list Z) (pfp :
   | O => (s, [], [])
   | S n' =>
       let '(s1, ok, ril) := exch1 s (hd PN ms) pfp in
-      if ok then
+      if match hd PN ms with PS => true | _ => false end then (s1, [ril], [])   (* the context is over *)
+      else if ok then
         if in_ilv s1 then (s1, [ril], [hd 0 vs])
         else let '(s2, rl, dl) := exch_loop n' s1 (tl ms) (tl vs) pfp in (s2, ril :: rl, hd 0 vs :: dl)
       else let '(s2, rl, dl) := exch_loop n' s1 (tl ms) vs pfp in (s2, ril :: rl, dl)
@@ -176,20 +186,32 @@ Inductive round_res :=
 | ROk (obs : list client_obs) (off : Z) (rest : list Z)
 | RNoMeas (obs : list client_obs) (rest : list Z)                      (* errNoMeasurement *)
 | RNoPath (post : list cstate) (resets : list bool) (rest : list Z)
-| RFail.      (* random generator error, panic, hang: not driven through histories *)
+| RErr (post : list cstate) (resets : list bool)   (* RandIntn returns the context's error: nobody probes; the resets are done *)
+| RFail.      (* panic, hang: not driven through histories *)
 
 Definition participants (obs : list client_obs) : list client_obs := filter (fun o => is_some (co_path o)) obs.
 
-Definition run_round (fps : list Z) (cs : list cstate) (d : Z) (tape : list Z)
+Definition post_reset (cs : list cstate) (resets : list bool) : list cstate :=
+  map (fun sr : cstate * bool => if snd sr then reset_client (fst sr) else fst sr) (combine cs resets).
+
+(* c: the context is already cancelled when the round starts *)
+Definition run_round_c (c : bool) (fps : list Z) (cs : list cstate) (d : Z) (tape : list Z)
   (mss : list (list pmode)) (vss : list (list Z)) : round_res :=
-  match assign fps cs false d tape with
+  match assign fps cs c d tape with
   | AOk asg resets rest =>
       let obs := run_clients fps cs asg resets mss vss in
       match round_offset (map (fun o => client_value (co_vals o)) (participants obs)) with
       | Some off => ROk obs off rest
       | None => RNoMeas obs rest
       end
-  | ANoPath resets rest =>
-      RNoPath (map (fun sr : cstate * bool => if snd sr then reset_client (fst sr) else fst sr) (combine cs resets)) resets rest
+  | ANoPath resets rest => RNoPath (post_reset cs resets) resets rest
+  | AErr resets => RErr (post_reset cs resets) resets
   | _ => RFail
   end.
+
+Definition run_round := run_round_c false.
+
+(* ---- the context ends before every participant has delivered ----
+   collectMeasurements leaves its loop at ctx.Done: `arrived` (in arrival order) is cut after the first `cut`
+   deliveries; FaultTolerantMidpoint is taken over the successful ones among them. *)
+Definition round_offset_cut (arrived : list (option Z)) (cut : nat) : option Z := round_offset (firstn cut arrived).
